@@ -255,6 +255,16 @@ def run_case(case, ctx):
                     keep = rng.integers(0, 2, w.shape[1]).astype(bool)
                     keep[int(rng.integers(w.shape[1]))] = True
                     w[:, ~keep] = 0
+        # a seed whose entries cancel exactly (a relative displacement +1/-1 on two dofs) is not a zero seed
+        for j, w in enumerate(out):
+            if isinstance(w, np.ndarray) and w.ndim >= 1 and w.shape[0] >= 2 and rng.random() < 0.2:
+                cols = [()] if w.ndim == 1 else [(c,) for c in range(w.shape[1]) if rng.random() < 0.6] if w.ndim == 2 else []
+                for c in cols:
+                    i1, i2 = rng.choice(w.shape[0], 2, replace=False)
+                    col = np.zeros(w.shape[0], dtype=w.dtype)
+                    col[i1], col[i2] = 1.0, -1.0
+                    w[(slice(None),) + c] = col
+                ctx.count("seeds_with_exactly_cancelling_entries")
         # scalar seeds are sometimes handed over as (mutable) 0-d arrays
         return [np.array(w) if (w is not None and np.ndim(w) == 0 and not hasattr(w, "todense") and rng.random() < 0.5) else w for w in out]
 
@@ -315,4 +325,22 @@ def run_case(case, ctx):
     if not e_tw <= 1e-9:
         raise Violation(f"second-sensitivity-call-adds-different-contribution/{cfg.name}", key=cfg.key, err=e_tw)
     big = max([float(np.max(np.abs(todense(g)))) for g in g1 if g is not None and np.size(todense(g))] + [0.0])
+    if cfg.name == "ComplexNorm":
+        # states stay untouched also where the module is not differentiable (|z| at z = 0: the sensitivity is not finite there and
+        # is not judged, the states are)
+        import pymoto as pym
+        z = np.array(todense(cfg.x0[0]), dtype=complex if np.iscomplexobj(cfg.x0[0]) else float).reshape(-1)
+        if z.size >= 2:
+            z[int(rng.integers(z.size))] = 0.0
+            m0 = pym.ComplexNorm(pym.Signal("z", z.copy()), pym.Signal("a"))
+            with warnings.catch_warnings(), np.errstate(all="ignore"):
+                warnings.simplefilter("ignore")
+                m0.response()
+                st = _states(m0)
+                m0.sig_out[0].sensitivity = rng.standard_normal(z.size)
+                m0.sensitivity()
+                require(st == _states(m0), "sensitivity-changes-a-state", module="ComplexNorm", key="ComplexNorm/with-exact-zero-entry")
+                m0.reset()
+                require(st == _states(m0), "reset-changes-a-state", module="ComplexNorm", key="ComplexNorm/with-exact-zero-entry")
+            ctx.count("purity_at_nondifferentiable_point")
     return {"key": cfg.key, "nontrivial": big > 0, "obs": {"module": cfg.name, "lin_err": e_lin, "twice_err": e_tw}}
